@@ -118,6 +118,8 @@ class CParser:
         return Coord(file=self.clex.filename, line=lineno, column=column)
 
     def _parse_error(self, msg: str, coord: Coord | str | None) -> NoReturn:
+        if coord is None:
+            coord = self.clex.filename
         raise ParseError(f"{coord}: {msg}")
 
     def _push_scope(self) -> None:
@@ -342,7 +344,7 @@ class CParser:
                     or len(spec["type"][-1].names) != 1
                     or not self._is_type_in_scope(spec["type"][-1].names[0])
                 ):
-                    coord = "?"
+                    coord = self.clex.filename
                     for t in spec["type"]:
                         if hasattr(t, "coord"):
                             coord = t.coord
